@@ -1023,6 +1023,8 @@ func (w *World) apply(e Event) {
 		for _, o := range w.nodes {
 			o.fpValid = false
 		}
+	case "watch":
+		n.watchNow = true
 	case "detcheck":
 		w.steps--
 		w.detCheck()
@@ -1354,6 +1356,9 @@ func (n *Node) appKey() uint64 {
 	s.u64(uint64(n.incarnation))
 	if n.earlierLife {
 		s.b(0xe1)
+	}
+	if n.watchNow {
+		s.b(0xe5)
 	}
 	if n.ledgerAhead {
 		s.b(0xe2)
